@@ -127,6 +127,9 @@ pub fn label_long(ctx: &mut crate::engine::Ctx, b: &crate::gen::Building) {
     if b.lines.len() >= 100 {
         ctx.label("many_lines");
     }
+    if b.tags.iter().any(|t| t == "step_magnitudes") {
+        ctx.label("step_magnitudes");
+    }
 }
 
 /// the parser completed ambient / solar production: the parsed components hold more production components than
